@@ -38,8 +38,12 @@ CHECKS["C02"] = dict(
          "peer resets, refusals, accepts and connections whose first write fails, against sends with each retry policy, "
          "with the clock advanced to the timed-automaton corners (e-eps, e, e+eps) of every pending expiry; monitor: on-wire "
          "attempts <= 1+retries, every attempt strictly before accept+lifetime, the command that failed once is the first "
-         "frame on the next connection, and after the network behaves nothing owed is missing.",
-    technique="explicit-state BFS over real executions with fault injection and clock-region corners")
+         "frame on the next connection, and after the network behaves nothing owed is missing. API part: every public command "
+         "of both generations and the internal senders with accumulate-on-repeat arguments, each under six fault scripts (1/2/3 "
+         "failed writes, link down 0.5 s / 1+eps / 31 s at submit): commands whose reference reading accumulates on repetition "
+         "at most once on the wire, others at most three times, none after 30 s, a transiently failed idempotent command is the "
+         "first frame of the next connection; a heartbeat request on a dead link is not transmitted later than 1 s.",
+    technique="explicit-state BFS over real executions with fault injection and clock-region corners; exhaustive command x fault-script enumeration")
 CHECKS["C15"] = dict(
     level="model_checking", design="DESIGN.md §6 C15",
     text="shutdown() injected at every turn boundary of four backbone histories (handshake + heartbeat + AT4 poll, refused "
@@ -172,6 +176,16 @@ CHECKS["C18"] = dict(
          "interval with a valid answer, return by 1.5 s, result = reference-parsed valid datagrams without duplicates, clients with "
          "the right model/port, endpoint closed.",
     technique="exhaustive enumeration of datagram contents and arrival schedules on the real search loop")
+
+CHECKS["C19"] = dict(
+    level="model_checking", design="DESIGN.md §6 C19",
+    text="An AirTouch 4 client and an AirTouch 5 client are driven side by side against two simulated consoles built from one "
+         "abstract installation and state (common domain). All joint histories of length <= 3 (4 thorough) over 13 abstract "
+         "events (status changes, commands incl. one that must be refused, reconnect), two installation variants, plus the "
+         "single-step cross products of status values and of every common command argument. Relational oracle: equal public "
+         "attributes (documented differences whitelisted), same accept/reject, equal normalised reference reading of every "
+         "accepted command.",
+    technique="exhaustive enumeration of joint histories with a relational (differential) oracle between the two implementations")
 
 NOT_YET = {}
 
